@@ -367,6 +367,6 @@ def obligations(tier: str):
     for init in ("standard", "generic", "halfandhalf", "full", "grow", "pigrow", "ramped", "inject"):
         add("initializer", f"init_{init}", init=init, K=3 if init in ("inject", "grow", "pigrow") and not T else K)
     if T:
-        add("generations", "gp_generations_default_step", step="default", P=2, budget=4, fixed_random=True)
+        add("generations", "gp_generations_default_step", step="default", P=2, budget=3, fixed_random=True)  # budget 4: > 4500 paths (probability gates of three nested steps per individual)
     add("generations", "gp_generations_simplegp_step", step="simplegp", P=3 if T else 2, Pmin=2, budget=5 if T else 3, fixed_random=T)
     return obs
